@@ -211,7 +211,7 @@ def tolerance(t):
     return 5 * PREC_TIMING + 1e-12 * abs(t)
 
 
-def simulate_cpu(cores, speed, scale, state, execs, w=0.0, horizon=1e9):
+def simulate_cpu(cores, speed, scale, state, execs, w=0.0, horizon=1e9, forced=None):
     """execs: [{"id", "start", "flops", "bound"(<=0: none)}]; scale/state: Step. -> {id: Pred}.
     Rates: capacity cores*speed*scale shared max-min between the running (single-threaded) executions, each limited to
     min(speed*scale, bound)."""
@@ -240,7 +240,8 @@ def simulate_cpu(cores, speed, scale, state, execs, w=0.0, horizon=1e9):
         for i, r in zip(ids, rates):
             if r > 0:
                 fin = min(fin, t + running[i][0] / r)
-        nxt = min(fin, scale.next_after(t), state.next_after(t), pend[pi]["start"] if pi < len(pend) else INF)
+        nxt = min([fin, scale.next_after(t), state.next_after(t), pend[pi]["start"] if pi < len(pend) else INF] +
+                  [forced[i] for i in ids if forced and i in forced and forced[i] > t])
         if nxt == INF or nxt > horizon:
             for i in ids:
                 preds[i] = Pred("never", INF)
@@ -265,6 +266,14 @@ def simulate_cpu(cores, speed, scale, state, execs, w=0.0, horizon=1e9):
         t = nxt
         off_now = any(v <= 0 for _, v in state.changes_in(t, t))
         near_off = w > 0 and any(v <= 0 for _, v in state.changes_in(t - w, t + w))
+        if forced:
+            # activities already reported (or not judged): they leave when SimGrid said they left, so that the others are judged on their own
+            for i in list(running):
+                if i in forced and forced[i] <= t:
+                    if i in finishing:
+                        finishing.remove(i)
+                    preds[i] = Pred("forced", forced[i])
+                    del running[i]
         for i in finishing:
             p = Pred("ok", t)
             if off_now or near_off:
@@ -287,20 +296,24 @@ def simulate_cpu(cores, speed, scale, state, execs, w=0.0, horizon=1e9):
             pi += 1
             if w > 0 and state.changes_in(x["start"] - w, x["start"] + w):
                 why = "host state changes within precision/timing of the start date"
-                if state.at(x["start"] + w) > 0:      # follow what the host is after the window
-                    running[x["id"]] = [x["flops"], x["bound"], why]
+                if forced and x["id"] in forced and forced[x["id"]] <= x["start"]:
+                    preds[x["id"]] = Pred("forced", forced[x["id"]])
+                elif state.at(x["start"] + w) > 0:      # follow what the host is after the window
+                    running[x["id"]] = [INF if forced and x["id"] in forced else x["flops"], x["bound"], why]
                 else:
                     preds[x["id"]] = Pred("hostfail", x["start"])
                     preds[x["id"]].unjudged = why
                 continue
-            if state.at(t) <= 0:
+            if forced and x["id"] in forced and forced[x["id"]] <= x["start"]:
+                preds[x["id"]] = Pred("forced", forced[x["id"]])
+            elif state.at(t) <= 0:
                 preds[x["id"]] = Pred("hostfail", x["start"])
             else:
-                running[x["id"]] = [x["flops"], x["bound"], None]
+                running[x["id"]] = [INF if forced and x["id"] in forced else x["flops"], x["bound"], None]
     return preds
 
 
-def simulate_route(links, comms, capped=False, w=0.0, horizon=1e9):
+def simulate_route(links, comms, capped=False, w=0.0, horizon=1e9, forced=None):
     """links: [{"name", "policy" 'SHARED'|'FATPIPE', "bw": Step, "lat": Step, "state": Step}] all traversed by every comm;
     comms: [{"id", "start", "size"}] -> {id: Pred}.
     A comm first waits for the sum of the latencies (as they are when it starts), then transfers at
@@ -343,7 +356,8 @@ def simulate_route(links, comms, capped=False, w=0.0, horizon=1e9):
                 fin = min(fin, t + flying[i]["rem"] / r)
         nxt = min([fin, pend[pi]["start"] if pi < len(pend) else INF] +
                   [l["bw"].next_after(t) for l in links] + [l["state"].next_after(t) for l in links] +
-                  [flying[i]["lat_end"] for i in flying if flying[i]["lat_end"] > t])
+                  [flying[i]["lat_end"] for i in flying if flying[i]["lat_end"] > t] +
+                  [forced[i] for i in flying if forced and i in forced and forced[i] > t])
         if nxt == INF or nxt > horizon:
             for i in list(flying):
                 preds[i] = Pred("never", INF)
@@ -371,6 +385,13 @@ def simulate_route(links, comms, capped=False, w=0.0, horizon=1e9):
             if raised_hit:
                 p.tags.add("raised")
             return p
+        if forced:
+            for i in list(flying):
+                if i in forced and forced[i] <= t:
+                    if i in finishing:
+                        finishing.remove(i)
+                    preds[i] = Pred("forced", forced[i])
+                    del flying[i]
         for i in finishing:
             p = tag(Pred("ok", t))
             if off_now or near_off:
@@ -395,6 +416,9 @@ def simulate_route(links, comms, capped=False, w=0.0, horizon=1e9):
             unj = None
             if w > 0 and any(l["state"].changes_in(s - w, s + w) for l in links):
                 unj = "link state changes within precision/timing of the start date"
+            if forced and x["id"] in forced and forced[x["id"]] <= s:
+                preds[x["id"]] = Pred("forced", forced[x["id"]])
+                continue
             if not all_on(s):
                 p = Pred("netfail", s)
                 p.unjudged = unj
@@ -413,7 +437,12 @@ def simulate_route(links, comms, capped=False, w=0.0, horizon=1e9):
                     lat_points = True     # points that repeat the current value: nothing changes
             if w > 0 and any(l["bw"].changes_in(s - w, s + w) for l in links) and capped:
                 unj = unj or "bandwidth changes within precision/timing of the start date"
-            flying[x["id"]] = {"lat_end": s + lat, "rem": x["size"], "cap": min(l["bw"].at(s) for l in links), "unjudged": unj,
+            cap = min(l["bw"].at(s) for l in links)
+            if capped == 2:       # dates only known up to w: the smallest bandwidth seen around the start date
+                cap = min(min(l["bw"].allowed(s, w)) for l in links)
+            if capped == 3:       # ... or the points dated within w after the start already applied
+                cap = min(l["bw"].at(s + w) for l in links)
+            flying[x["id"]] = {"lat_end": s + lat, "rem": INF if forced and x["id"] in forced else x["size"], "cap": cap, "unjudged": unj,
                                "lat_points": lat_points}
     return preds
 
@@ -435,7 +464,8 @@ def host_power(spec, on, pstate, load_flops):
 def integrate(segments, t):
     """segments: [(t0, t1, power)] sorted; energy consumed in [0, t]."""
     e = 0.0
-    for a, b, p in segments:
+    for seg in segments:
+        a, b, p = seg[0], seg[1], seg[2]
         if a >= t:
             break
         e += p * (min(b, t) - a)
